@@ -117,7 +117,7 @@ def statements_in(rel):
 
 # files under gen/ that are regenerated from the repository source on every run and belong to the development
 # (Consts.v: constants and templates; Src*.v: Gallina definitions translated from the source text, harness/srcgen)
-GEN_FILES = ('Consts.v', 'SrcCal.v', 'SrcSched.v', 'SrcFill.v', 'SrcGraph.v')
+GEN_FILES = ('Consts.v', 'SrcCal.v', 'SrcSched.v', 'SrcFill.v', 'SrcGraph.v', 'SrcPass.v')
 
 
 def regenerate_consts():
@@ -126,9 +126,9 @@ def regenerate_consts():
     from harness import consts
     text, problems = consts.generate(repo_path())
     write_if_changed(os.path.join(GEN, 'Consts.v'), text)
-    from harness.srcgen import cal as srccal, sched as srcsched, fill as srcfill, graph as srcgraph
+    from harness.srcgen import cal as srccal, sched as srcsched, fill as srcfill, graph as srcgraph, passes as srcpass
     for part, mod, fname in (('srccal', srccal, 'SrcCal.v'), ('srcsched', srcsched, 'SrcSched.v'), ('srcfill', srcfill, 'SrcFill.v'),
-                             ('srcgraph', srcgraph, 'SrcGraph.v')):
+                             ('srcgraph', srcgraph, 'SrcGraph.v'), ('srcpass', srcpass, 'SrcPass.v')):
         try:
             text, probs = mod.emit(repo_path())
         except Exception as e:   # fail closed
